@@ -26,16 +26,10 @@ Theorem C04_push_acceptance : forall (K : Type) (NK : Num K) (L : Loop K) (p : V
 Proof. exact (fun K NK => @push_accepts K NK). Qed.
 
 (** a successful close yields a closed loop with at least three vertices.
-    PARTIAL: the property also demands "no vertex collinear with its two neighbours".  The retraced-spike case
-    (C04:closed-collinear:after-retrace) was repaired by fix df28df6.  What is proved now is in
-    Properties/C04_reach.v: which vertices a successful close drops (C04_close_ok_effect), that both wrap-around corners
-    passed the collinearity test when nothing was dropped (C04_close_nothing_dropped_corners), and, over the reals, that
-    ALL corners of such a loop are genuine when every collinear replacement of the history was exact
-    (C04_closed_corners_genuine_partial).  The clause is still FALSE of the code in general: close does not re-test the
-    corners it creates by dropping the first / last vertex (C04_closed_collinear_exact_refuted, exact data), push does not
-    re-test the corner behind a replaced vertex (C04_closed_collinear_by_replacement_refuted), and a loop can end up marked
-    closed with fewer than three vertices after a FAILED close (C04_closed_has_three_refuted).  The exact-rational oracle
-    checks the clause on every closed state. *)
+    PARTIAL here; the rest of the clause ("no vertex collinear with its two neighbours") is now a theorem about every
+    reachable closed state, in the library's own reading of collinear: Properties/C04_reach_live.v,
+    C04_live_closed_no_collinear_vertex (after the fix of push/close; the defects of the code before it are recorded in
+    Properties/C04_reach.v).  The exact-rational oracle checks the geometric reading on every closed state. *)
 Theorem C04_closed_invariants_partial : forall (K : Type) (NK : Num K) (L : Loop K),
   snd (loop_close L) = Ok tt -> lclosed (fst (loop_close L)) = true /\ 3 <= llen (fst (loop_close L)).
 Proof. exact (fun K NK => @close_ok_invariants K NK). Qed.
